@@ -919,7 +919,13 @@ def main():
             out["mismatch"].append({"what": "derived-object", "struct": "Variation" if member in ("_sim", "lrescale", "particles", "vary") else "Simulation",
                                     "member": member, "detail": detail})
 
-        def source():
+        def source(kind="full"):
+            if kind == "empty":                       # N = 0, no variation sets: particles and var_config are NULL
+                return rebound.Simulation()
+            if kind == "one":                         # N = 1, no variation sets
+                s_ = rebound.Simulation(); s_.add(m=1., hash="b"); return s_
+            if kind == "two+1var":                    # N = 2 real particles, a single variation set
+                s_ = rebound.Simulation(); s_.add(m=1.); s_.add(m=1e-3, a=1., hash="b"); s_.add_variation(); return s_
             s_ = mk(); s_.integrator = "whfast"; s_.dt = 0.01
             s_.particles[1].hash = "b"
             a = s_.add_variation(); t_ = s_.add_variation(testparticle=2); b = s_.add_variation()
@@ -935,8 +941,9 @@ def main():
             def pbase(self): return ctypes.c_void_p.from_address(self.b + off_pp).value
             def vbase(self): return ctypes.c_void_p.from_address(self.b + off_vcp).value
             def snap(self):
-                return (ctypes.string_at(self.b, simsize), ctypes.string_at(self.pbase(), self.N() * pstride),
-                        ctypes.string_at(self.vbase(), self.k() * vstride))
+                return (ctypes.string_at(self.b, simsize),
+                        ctypes.string_at(self.pbase(), self.N() * pstride) if self.N() else b"",
+                        ctypes.string_at(self.vbase(), self.k() * vstride) if self.k() else b"")
             def vint(self, i, m): return ctypes.c_int.from_address(self.vbase() + i * vstride + voff[m]).value
             def back_pointers(self):
                 """(what, index, pointer) for every back pointer stored inside this simulation's memory"""
@@ -966,7 +973,9 @@ def main():
                 for what_, ptr in MS.back_pointers():
                     if ptr != MS.b:
                         okp = False; badd("_sim", "%s: source simulation at %#x: C %s = %#x" % (tag, MS.b, what_, ptr or 0))
-            if MS is not None and (MD.pbase() == MS.pbase() or MD.vbase() == MS.vbase()):
+            if MD.N() == 0 and len(D.particles) != 0:
+                okp = False; badd("particles", "%s: derived simulation has C N=0 but len(particles)=%d" % (tag, len(D.particles)))
+            if MS is not None and ((MD.N() and MD.pbase() == MS.pbase()) or (MD.k() and MD.vbase() == MS.vbase())):
                 okp = False; badd("particles", "%s: derived and source simulation share the particles / var_config array" % tag)
             # python-level pointers
             for i in range(MD.k()):
@@ -1011,15 +1020,22 @@ def main():
                 if MD.vint(i, "order") == 1 and MD.vint(i, "testparticle") < 0:
                     lo = MD.vint(i, "index") * pstride
                     write_check("vary", lambda: h.vary(1, "a"), 1, lo, len(ps) * pstride)
-            for j in (0, -1, "b"):
+            hb = clib.reb_hash(b"b")
+            bidx = [q for q in range(MD.N()) if ctypes.c_uint32.from_address(MD.pbase() + q * pstride + poff["hash"]).value == hb]
+            for j in ((0, -1) if MD.N() else ()) + (("b",) if bidx else ()):
                 serial[0] += 1; val = 0.25 + serial[0] / 64.0
-                jj = {0: 0, -1: MD.N() - 1, "b": 1}[j]
+                jj = {0: 0, -1: MD.N() - 1, "b": bidx[0] if bidx else 0}[j]
                 write_check("particles[%r].m" % j, lambda: setattr(D.particles[j], "m", val), 1, jj * pstride + poff["m"], 8, struct.pack("<d", val),
                             allow=cache if j == "b" else ())
             if MS is not None:
                 # and the other way round: writes through the source's handles leave the derived object alone
                 d0 = MD.snap()
-                S.var_config[1].lrescale = -9.5; S.var_config[2].particles[0].x = 77.0; S.particles[1].m = 0.123
+                if MS.k() > 2:
+                    S.var_config[1].lrescale = -9.5; S.var_config[2].particles[0].x = 77.0
+                elif MS.k() == 1:
+                    S.var_config[0].lrescale = -9.5; S.var_config[0].particles[0].x = 77.0
+                if MS.N():
+                    S.particles[MS.N() - 1].m = 0.123
                 out["checked"]["derived"] += 1
                 if MD.snap() != d0:
                     badd("lrescale", "%s: writes through the SOURCE's handles changed the derived simulation: %s" % (tag, regions_diff(d0, MD.snap())))
@@ -1046,6 +1062,14 @@ def main():
                     junk = [mk() for _ in range(3)]          # let the allocator reuse the freed blocks
                     check_derived(how, D, None)
                     del junk, D, keep_
+            # the smallest sources: N = 0 (NULL arrays), N = 1, N = 2 with a single variation set
+            for kind in ("empty", "one", "two+1var"):
+                for how in ("copy()", "pickle", "file", "archive[0]"):
+                    S = source(kind); D, keep_ = derive(how, S)
+                    if check_derived("%s of a %s simulation" % (how, kind), D, S):
+                        del S; gc.collect()
+                        check_derived("%s of a %s simulation" % (how, kind), D, None)
+                    del D, keep_
             # derived from a derived one (copy of a copy)
             S = source(); D1 = S.copy(); D2 = D1.copy()
             check_derived("copy() of copy()", D2, D1)
